@@ -241,6 +241,10 @@ func genJoinCase(t *rapid.T) progCase {
 			{"(SELECT k FROM b WHERE b.k = {l}.{lk} UNION ALL SELECT k FROM one)", "k", true},
 			{"(SELECT * FROM {R0} i WHERE i.{rk0} = {l}.{lk})", "", true},
 			{"(SELECT * FROM b WHERE b.k = {l}.{lk})", "k", false},
+			// the number of columns of the subquery depends on the outer row (inline data read per row)
+			{"(SELECT * FROM JSON('', DATA::(CASE WHEN {l}.{lk} = 1 THEN '[{\"k\":1}]' ELSE '[{\"k\":2,\"y\":3}]' END)) jt)", "k", true},
+			{"(SELECT * FROM CSV(',', DATA::(CASE WHEN {l}.{lk} IS NULL THEN 'k,y,z\n7,8,9' WHEN {l}.{lk} = 1 THEN 'k\n1' ELSE 'k,y\n2,3' END)) ct)", "k", true},
+			{"(SELECT * FROM JSON('', DATA::(CASE WHEN {l}.{lk} = 1 THEN '[]' ELSE '[{\"k\":2}]' END)) jt)", "k", true},
 		})
 		lat = l.sql
 		if strings.Contains(lat, "{R0}") && ro.bare {
